@@ -231,6 +231,12 @@ func mergeIOSACLs(ab *cmdsPair, name, prefix string) {
 	// Store changed ACL.
 	b0 := ab.bCmds[0]
 	b0.sub = acl
+	// Lines taken from ACL of Netspoc are subcommands of b0 now.
+	// Otherwise they would later be sent to device using the name
+	// of their previous toplevel command.
+	for _, sc := range acl {
+		sc.subCmdOf = b0
+	}
 	ab.a.lookup[prefix][name] = []*cmd{b0}
 }
 
